@@ -18,6 +18,8 @@ import time
 VERIF = os.path.dirname(os.path.dirname(os.path.abspath(__file__)))
 REPO = os.environ.get("QENTEM_REPO", "/repo")
 BUILD = os.environ.get("VERIF_BUILD", os.path.join(VERIF, "build"))
+# tools/coverage_gaps.py sets this (with its own VERIF_BUILD) to learn which library lines the workloads never reach
+COVERAGE = os.environ.get("VERIF_COVERAGE", "") == "1"
 NPROC = int(os.environ.get("VERIF_JOBS", "16"))
 
 SAN_UB = "bounds,null,integer-divide-by-zero,bool,enum,vla-bound,return,unreachable,builtin"
@@ -106,6 +108,8 @@ class Config:
             f += ["-DVF_CHAR=%s" % self.unit]
         f += ["-D" + d for d in self.defines]
         f += list(self.extra)
+        if COVERAGE and self.compiler == "g++":
+            f += ["--coverage", "-fprofile-update=atomic"]
         return f
 
     def describe(self):
@@ -130,12 +134,15 @@ def build_one(cfg):
     if os.path.exists(out):
         return out
     tmp = out + ".tmp%d" % os.getpid()
+    if COVERAGE:
+        tmp = out  # gcov note/data files are named after the output path: keep it stable
     cmd = [cfg.compiler] + cfg.flags() + [src, "-o", tmp, "-ldl"]
     t0 = time.time()
     r = subprocess.run(cmd, capture_output=True, text=True)
     if r.returncode != 0:
         raise HarnessError("build failed: %s\n%s" % (" ".join(cmd), r.stderr[-6000:]))
-    os.rename(tmp, out)
+    if tmp != out:
+        os.rename(tmp, out)
     # drop stale binaries of the same configuration
     for n in os.listdir(bindir):
         if n.startswith(cfg.name() + ".") and n != os.path.basename(out) and ".tmp" not in n:
